@@ -6,189 +6,13 @@ from fractions import Fraction as Fr
 
 from ..nf import Rat, C
 from ..source import Unsupported, AnchorError, norm, walk_no_nested
-from ..xlate import Interp, Obj, ListV, Elem, SumV, Raised, RankOrder, DictV
+from ..xlate import Interp, Obj, ListV, Elem, SumV, Raised, RankOrder, DictV, Frame
+from .. import fitmodel
 from .common import same, show, coeff_vector, sub
 from .rxnfix import get_public
 
 NASA = 'pmutt.empirical.nasa'
 SHO = 'pmutt.empirical.shomate'
-
-
-# ----------------------------------------------------------------------
-# A. vector-shape evaluator for the Cp-fit functions (structural)
-
-class Shape:
-    """abstract coefficient vector: list of tags; '0' = literal zero slot,
-    'p<k>' = fitted coefficient of x**k, 'f<i>' = i-th curve_fit parameter"""
-
-    def __init__(self, module, fn, repo):
-        self.m = module
-        self.fn = fn
-        self.repo = repo
-        self.parents = {}
-        for n in ast.walk(fn):
-            for ch in ast.iter_child_nodes(n):
-                self.parents[ch] = n
-
-    def block_chain(self, node):
-        """list of (container stmt) ancestors up to the function"""
-        out = []
-        p = self.parents.get(node)
-        while p is not None and p is not self.fn:
-            out.append(p)
-            p = self.parents.get(p)
-        return out
-
-    def stmt_of(self, node):
-        n = node
-        while n is not None and not isinstance(n, ast.stmt):
-            n = self.parents.get(n)
-        return n
-
-    def defs(self, name, use):
-        """definitions of a local name that may reach the use (see module doc)"""
-        use_st = self.stmt_of(use)
-        use_anc = [use_st] + self.block_chain(use_st)
-        cands = []
-        for n in walk_no_nested(self.fn):
-            if isinstance(n, ast.Assign) and n.lineno < use_st.lineno + (0 if n is not use_st else 0):
-                for t in n.targets:
-                    if isinstance(t, ast.Name) and t.id == name:
-                        cands.append((n, None))
-                    elif isinstance(t, (ast.Tuple, ast.List)):
-                        for i, e in enumerate(t.elts):
-                            if isinstance(e, ast.Name) and e.id == name:
-                                cands.append((n, i))
-        if not cands:
-            return []
-        # an assignment whose enclosing block is an ancestor block of the use is unconditional w.r.t. the
-        # use: the latest such one kills everything before it
-        def uncond(st):
-            par = self.parents.get(st)
-            return par is self.fn or par in use_anc
-        unc = [c for c in cands if uncond(c[0])]
-        if unc:
-            last = max(unc, key=lambda c: c[0].lineno)
-            cands = [c for c in cands if c[0].lineno >= last[0].lineno]
-        return cands
-
-    def collector_items(self, name):
-        out = []
-        for n in walk_no_nested(self.fn):
-            if isinstance(n, ast.Call) and isinstance(n.func, ast.Attribute) and n.func.attr == 'append' \
-                    and isinstance(n.func.value, ast.Name) and n.func.value.id == name and n.args:
-                out.append(n.args[0])
-        return out
-
-    def dotted(self, f):
-        return ast.unparse(f)
-
-    def of(self, e, depth=0):
-        if depth > 12:
-            raise Unsupported('shape recursion', e, self.m.relpath)
-        if isinstance(e, ast.Call):
-            f = self.dotted(e.func)
-            if f in ('np.zeros', 'numpy.zeros'):
-                a = e.args[0] if e.args else None
-                if isinstance(a, ast.Constant) and isinstance(a.value, int):
-                    return ['0'] * a.value
-            if f == 'np.polyfit':
-                deg = None
-                for k in e.keywords:
-                    if k.arg == 'deg':
-                        deg = k.value
-                if deg is None and len(e.args) >= 3:
-                    deg = e.args[2]
-                if isinstance(deg, ast.Constant) and isinstance(deg.value, int):
-                    return ['p%d' % k for k in range(deg.value, -1, -1)]
-            if f in ('np.concatenate',):
-                seq = e.args[0]
-                if isinstance(seq, (ast.Tuple, ast.List)):
-                    out = []
-                    for x in seq.elts:
-                        out += self.of(x, depth + 1)
-                    return out
-            if f == 'np.append':
-                return self.of(e.args[0], depth + 1) + self.of(e.args[1], depth + 1)
-            if f in ('np.array',) and e.args:
-                return self.of(e.args[0], depth + 1)
-            if isinstance(e.func, ast.Name) and e.func.id in self.m.functions:
-                # a helper of the same module: the shape of what it returns (all return paths must agree)
-                callee = self.m.functions[e.func.id]
-                sub_ = Shape(self.m, callee, self.repo)
-                shapes = [sub_.of(r_.value, depth + 1) for r_ in returns_of(callee)
-                          if not isinstance(r_.value, ast.Tuple)]
-                if shapes and all(s_ == shapes[0] for s_ in shapes):
-                    return shapes[0]
-            raise Unsupported('shape of call %s' % f, e, self.m.relpath)
-        if isinstance(e, (ast.List, ast.Tuple)):
-            out = []
-            for x in e.elts:
-                if isinstance(x, ast.Constant) and isinstance(x.value, (int, float)) and x.value == 0:
-                    out.append('0')
-                else:
-                    raise Unsupported('shape of list element', x, self.m.relpath)
-            return out
-        if isinstance(e, ast.Subscript):
-            if isinstance(e.slice, ast.Slice):
-                s = e.slice
-                if s.lower is None and s.upper is None and isinstance(s.step, ast.UnaryOp) \
-                        and isinstance(s.step.op, ast.USub) and isinstance(s.step.operand, ast.Constant) \
-                        and s.step.operand.value == 1:
-                    return list(reversed(self.of(e.value, depth + 1)))
-                raise Unsupported('shape of slice', e, self.m.relpath)
-            if isinstance(e.value, ast.Name):
-                items = self.collector_items(e.value.id)
-                if items:
-                    shapes = [self.of(x, depth + 1) for x in items]
-                    if all(s == shapes[0] for s in shapes):
-                        return shapes[0]
-                    raise Unsupported('collector %s holds vectors of different shapes' % e.value.id, e,
-                                      self.m.relpath)
-            raise Unsupported('shape of subscript', e, self.m.relpath)
-        if isinstance(e, ast.Name):
-            ds = self.defs(e.id, e)
-            shapes = []
-            for st, idx in ds:
-                if idx is None:
-                    shapes.append(self.of(st.value, depth + 1))
-                else:
-                    shapes.append(self.tuple_elem(st.value, idx, depth + 1))
-            if shapes and all(s == shapes[0] for s in shapes):
-                return shapes[0]
-            raise Unsupported('no unique shape for %s' % e.id, e, self.m.relpath)
-        raise Unsupported('shape of %s' % type(e).__name__, e, self.m.relpath)
-
-    def tuple_elem(self, value, idx, depth):
-        if isinstance(value, (ast.Tuple, ast.List)):
-            return self.of(value.elts[idx], depth)
-        if isinstance(value, ast.Call) and isinstance(value.func, ast.Name):
-            callee = self.m.functions.get(value.func.id)
-            if callee is not None:
-                sub_ = Shape(self.m, callee, self.repo)
-                shapes = []
-                for n in walk_no_nested(callee):
-                    if isinstance(n, ast.Return) and isinstance(n.value, ast.Tuple):
-                        shapes.append(sub_.of(n.value.elts[idx], depth))
-                if shapes and all(s == shapes[0] for s in shapes):
-                    return shapes[0]
-            if value.func.id == 'curve_fit' and idx == 0:
-                lam = value.args[0] if value.args else None
-                if isinstance(lam, ast.Lambda):
-                    return ['f%d' % i for i in range(len(lam.args.args) - 1)]
-                if isinstance(lam, ast.Name):
-                    for st, _ in self.defs(lam.id, value):
-                        if isinstance(st.value, ast.Lambda):
-                            return ['f%d' % i for i in range(len(st.value.args.args) - 1)]
-                    # a nested def or a module-level function fitted directly
-                    for d_ in list(ast.walk(self.fn)) + list(self.m.functions.values()):
-                        if isinstance(d_, ast.FunctionDef) and d_.name == lam.id and d_ is not self.fn:
-                            return ['f%d' % i for i in range(len(d_.args.args) - 1)]
-        raise Unsupported('shape of tuple element', value, self.m.relpath)
-
-
-def returns_of(fn):
-    return [n for n in walk_no_nested(fn) if isinstance(n, ast.Return) and n.value is not None]
 
 
 def slot_tables(run, repo):
@@ -234,189 +58,244 @@ def slot_tables(run, repo):
     return out
 
 
-LSQ = ('numpy.polyfit', 'scipy.optimize.curve_fit')
+# ----------------------------------------------------------------------
+# A. the fitting pipeline, interpreted from the public from_data down to the least-squares library call and back
+#    (np.polyfit / curve_fit return fresh symbols, see pmv/fitmodel.py): no private helper is named or stubbed
+
+EVAL = {'nasa': (NASA, 'get_nasa_'), 'nasa9': (NASA, 'get_nasa9_'), 'shomate': (SHO, 'get_shomate_')}
 
 
-def lib_target(m, f):
-    """dotted library name of a call target (np.polyfit -> numpy.polyfit, curve_fit -> scipy.optimize.curve_fit)"""
-    chain = []
-    while isinstance(f, ast.Attribute):
-        chain.append(f.attr)
-        f = f.value
-    if not isinstance(f, ast.Name):
-        return None
-    al = m.aliases.get(f.id)
-    if not al:
-        return None
-    base = al[1] if al[0] == 'module' else al[1] + '.' + al[2]
-    return '.'.join([base] + list(reversed(chain)))
+def _fallback_rank(atom):
+    if atom.startswith('AT{'):
+        return 5        # an entry of the temperature data: somewhere inside the window
+    if atom.startswith('MEAN{'):
+        return 1        # a mean squared error: positive
+    return None
 
 
-def repo_callees(repo, m, fn):
-    """module-level functions of the repository called (by name) inside fn: [(module, FunctionDef)]"""
-    out = []
-    for c_ in ast.walk(fn):
-        if isinstance(c_, ast.Call) and isinstance(c_.func, (ast.Name, ast.Attribute)):
-            r = repo.resolve_expr(m, c_.func)
-            if isinstance(r, tuple) and r[0] == 'function' and (r[1], r[2]) not in out:
-                out.append((r[1], r[2]))
-    return out
-
-
-def lsq_calls(repo, m, fn, _seen=None):
-    """every least-squares library call reachable from fn through functions of the repository:
-    [(module, enclosing FunctionDef, Call, library name)]"""
-    seen = _seen if _seen is not None else set()
-    if id(fn) in seen:
-        return []
-    seen.add(id(fn))
-    out = []
-    for c_ in ast.walk(fn):
-        if isinstance(c_, ast.Call):
-            t = lib_target(m, c_.func)
-            if t in LSQ:
-                out.append((m, fn, c_, t))
-    for m2, f2 in repo_callees(repo, m, fn):
-        out.extend(lsq_calls(repo, m2, f2, seen))
-    return out
-
-
-def cp_fit_of(repo, qual):
-    """the heat-capacity fit of a polynomial family, found by its role: the one function called by the public
-    <Class>.from_data from which a least-squares library call is reached (its name and signature are the
-    class's own business)"""
+def fitted(repo, qual, kind, extra=None, ranks=None, fallback=None):
+    """interpret <Class>.from_data on symbolic data of the given kind -> (interpreter, result)"""
+    rk = {'len<vec>': 1000, 'cp': 1, 'kc': 1}
+    rk.update(ranks or {})
+    I = Interp(repo, order=RankOrder(rk, const_ranks=True, fallback=fallback or _fallback_rank))
+    fitmodel.install(I)
+    D = I.D
     ci = repo.cls(qual)
-    owner, fd = repo.find_method(ci, 'from_data')
-    cands = [(m2, f2) for m2, f2 in repo_callees(repo, owner.module, fd) if lsq_calls(repo, m2, f2)]
-    if len(cands) != 1:
-        raise AnchorError('%s.from_data: expected one callee that reaches np.polyfit/curve_fit, found %s'
-                          % (qual, [f2.name for _, f2 in cands]))
-    return cands[0]
+    owner, fn = repo.find_method(ci, 'from_data')
+    cpname = 'kc' if kind == 'const' else 'cp'
+    kw = {'name': 'sp', 'T': fitmodel.data_vector(I, 'Tdata'), 'CpoR': fitmodel.data_vector(I, cpname, kind),
+          'T_ref': D.sym('T_ref'), 'HoRT_ref': D.sym('HoRT_ref'), 'SoR_ref': D.sym('SoR_ref')}
+    kw.update(extra(I) if extra else {})
+    o = I.call_function(owner.module, fn, [], kw, self_obj=ci, owner=owner, name=owner.qual + '.from_data')
+    return I, o, owner, fn
 
 
-def fit_qual(mf):
-    return '%s.%s' % (mf[0].name, mf[1].name)
+def evaluator(I, repo, fam, q, a, T, units=None):
+    mod, prefix = EVAL[fam]
+    m = repo.module(mod)
+    f = m.functions.get(prefix + q)
+    if f is None:
+        raise AnchorError('%s.%s%s not found' % (mod, prefix, q))
+    if fam == 'shomate':
+        arr = ListV([T])
+        arr.is_array = True
+        r = I.call_function(m, f, [], {'a': a, 'T': arr, 'units': units})
+        return r.items[0] if isinstance(r, ListV) and len(r) == 1 else r
+    return I.call_function(m, f, [], {'a': a, 'T': T})
 
 
-def fit_shapes(run, repo, tables):
-    specs = (('nasa', NASA + '.Nasa', 0), ('nasa9', NASA + '.Nasa9', 2), ('shomate', SHO + '.Shomate', None))
+def vectors_of(I, fam, o):
+    """[(label, coefficient vector)] of a fitted species, through its public attributes"""
+    if fam == 'nasa':
+        return [('a_low', o.attrs.get('a_low')), ('a_high', o.attrs.get('a_high'))]
+    if fam == 'nasa9':
+        segs = get_public(I, o, 'nasas')
+        if not isinstance(segs, ListV):
+            return []
+        return [('nasas[%d].a' % k, s_.attrs.get('a')) for k, s_ in enumerate(segs.items)]
+    return [('a', o.attrs.get('a'))]
+
+
+def fit_of(I, vec, cp_slots):
+    """the least-squares call whose parameters fill the heat-capacity slots of a coefficient vector"""
+    ks = set()
+    for i in cp_slots:
+        if i < len(vec.items) and isinstance(vec.items[i], Rat):
+            for a_ in vec.items[i].atoms():
+                if a_.startswith('FIT#'):
+                    ks.add(int(a_[4:].split('.')[0]))
+    return sorted(ks)
+
+
+def mask_bounds(mask):
+    """(lower (op, value) | None, upper (op, value) | None) of a mask on the temperature data"""
+    lo = hi = None
+    for op, a_, b_ in (mask.terms if mask is not None else []):
+        if op in ('>', '>='):
+            lo = (op, b_)
+        elif op in ('<', '<='):
+            hi = (op, b_)
+    return lo, hi
+
+
+FAMILIES = (('nasa', NASA + '.Nasa', lambda I: {'T_mid': I.D.sym('Tm')}, {'Tm': 3, 'T_ref': 2}),
+            ('nasa9', NASA + '.Nasa9', None, {}),
+            ('shomate', SHO + '.Shomate', lambda I: {'units': I.D.sym('units')}, {}))
+
+
+def nasa9_extra(nseg):
+    def f(I):
+        v = ListV([I.D.sym('Tm%d' % k) for k in range(nseg - 1)])
+        v.is_array = True
+        return {'T_mid': v}
+    return f
+
+
+def fit_rules(run, repo, tables):
+    """what comes back from the least-squares call lands where the evaluators expect it"""
     n_inst = 0
-    for fam, cqual, shift in specs:
-        m, fn = cp_fit_of(repo, cqual)
-        mod, fname = m.name, fn.name
-        run.fn('%s.%s' % (mod, fname))
+    for fam, qual, extra, ranks in FAMILIES:
         tab = tables[fam]
-        sh = Shape(m, fn, repo)
-        rets = returns_of(fn)
-        if not rets:
-            raise AnchorError('%s.%s has no return' % (mod, fname))
-        for r in rets:
-            vecs = []
-            v = r.value
-            if fam == 'nasa':
-                if not (isinstance(v, ast.Tuple) and len(v.elts) == 3):
-                    raise Unsupported('return of _fit_CpoR is not (a_low, a_high, T_mid)', r, m.relpath)
-                vecs = [('a_low', v.elts[0]), ('a_high', v.elts[1])]
-            elif fam == 'nasa9':
-                # list of per-segment vectors: a collector or [vec] * k
-                if isinstance(v, ast.BinOp) and isinstance(v.op, ast.Mult) and isinstance(v.left, ast.List) \
-                        and len(v.left.elts) == 1:
-                    vecs = [('a[i]', v.left.elts[0])]
-                elif isinstance(v, ast.ListComp):
-                    vecs = [('a[i]', v.elt)]
-                elif isinstance(v, ast.Name):
-                    items = sh.collector_items(v.id)
-                    if not items:
-                        raise Unsupported('returned list %s is not built by append' % v.id, r, m.relpath)
-                    vecs = [('a[i]', x) for x in items]
-                else:
-                    raise Unsupported('return form of _fit_CpoR9', r, m.relpath)
-            else:
-                vecs = [('a', v)]
-            for label, e in vecs:
-                shape = sh.of(e)
-                key = '%s@return:%s' % (label, norm(r)[:60])
-                con = '%s.%s' % (mod.split('.')[-1], fname)
+        cname = qual.split('.')[-1]
+        con = '%s.%s.from_data' % (qual.split('.')[-2], cname)
+        if fam == 'nasa9':
+            extra = nasa9_extra(3)
+        for kind in ('generic', 'const', 'zero', 'nan'):
+            I, o, owner, fn = fitted(repo, qual, kind, extra, ranks)
+            D = I.D
+            units = D.sym('units') if fam == 'shomate' else None
+            key0 = '%s data' % {'generic': 'generic', 'const': 'constant non-zero Cp', 'zero': 'all-zero Cp',
+                                'nan': 'Cp with NaN'}[kind]
+            if not isinstance(o, Obj):
+                run.fail('SLOT.length', con, key0, 'from_data does not build a species for %s: %s' % (key0, show(o, 160)),
+                         owner.module, o.node if isinstance(o, Raised) and hasattr(o.node, 'lineno') else fn)
                 n_inst += 1
-                if not run.check(len(shape) == tab['n'], 'SLOT.length', con, key,
-                                 'returns a coefficient vector of length %d but the %s evaluators use %d '
-                                 'coefficients (from_data then indexes/evaluates out of range)'
-                                 % (len(shape), fam, tab['n']), m, r,
-                                 sample={'family': fam, 'return': norm(r)[:80], 'shape': shape}):
+                continue
+            vecs = vectors_of(I, fam, o)
+            for label, vec in vecs:
+                n_inst += 1
+                key = '%s %s' % (key0, label)
+                if not run.check(isinstance(vec, ListV) and len(vec) == tab['n'], 'SLOT.length', con, key,
+                                 '%s has %s coefficients but the %s evaluators use %d (evaluation then indexes out of '
+                                 'range or mis-assigns slots)' % (label, len(vec) if isinstance(vec, ListV) else show(vec),
+                                                                  fam, tab['n']), owner.module, fn,
+                                 sample={'family': fam, 'data': kind, 'vector': label}):
                     continue
-                zero_slots = [i for i, t in enumerate(shape) if t == '0']
-                need_zero = sorted(tab['hconst'] + tab['sconst'])
-                run.check(all(i in zero_slots for i in need_zero), 'SLOT.zero', con, key,
-                          'integration-constant slots %s must be returned as zeros for the anchoring arithmetic of '
-                          'from_data to hit the reference; zero slots are %s' % (need_zero, zero_slots), m, r)
-                if all(t == '0' for t in shape):
+                cp_slots = sorted(tab['powers'])
+                if kind in ('zero', 'nan'):
+                    # documented degenerate path: no heat capacity, the reference still anchors H and S (pipelines)
+                    run.check(all(isinstance(vec.items[i], Rat) and vec.items[i].iszero() for i in cp_slots),
+                              'SLOT.zero', con, key, 'with %s the heat-capacity coefficients must be zero: %s'
+                              % (key0, show(vec, 160)), owner.module, fn)
                     continue
-                for i, t in enumerate(shape):
-                    if t.startswith('p') and shift is not None:
-                        k = int(t[1:])
-                        want = tab['powers'].get(i)
-                        run.check(want is not None and Fr(k - shift) == want, 'SLOT.power', con,
-                                  key + ' slot%d' % i,
-                                  'slot %d receives the fitted coefficient of x^%d of Cp*T^%d, i.e. T^%d, but the '
-                                  'evaluator multiplies slot %d by T^%s' % (i, k, shift, k - shift, i, want), m, r)
-                    if t.startswith('f'):
-                        run.check(i in tab['powers'], 'SLOT.power', con, key + ' slot%d' % i,
-                                  'fitted parameter lands in slot %d which has no Cp basis' % i, m, r)
-        # the polynomial fitted must be Cp * T**shift
-        if shift is not None:
-            for m_c, _f_c, c_, _t in [x for x in lsq_calls(repo, m, fn) if x[3] == 'numpy.polyfit']:
-                y = None
-                for k in c_.keywords:
-                    if k.arg == 'y':
-                        y = k.value
-                if y is None and len(c_.args) >= 2:
-                    y = c_.args[1]
-                got_shift = 0
-                if isinstance(y, ast.BinOp) and isinstance(y.op, ast.Mult):
-                    for side in (y.left, y.right):
-                        if isinstance(side, ast.BinOp) and isinstance(side.op, ast.Pow) \
-                                and isinstance(side.right, ast.Constant):
-                            got_shift = side.right.value
-                run.check(got_shift == shift, 'SLOT.power', '%s.%s' % (mod.split('.')[-1], fname),
-                          'polyfit-y:%s' % norm(y)[:40],
-                          'the fitted quantity is Cp*T^%s, expected Cp*T^%d for this coefficient layout'
-                          % (got_shift, shift), m_c, c_)
+                ks = fit_of(I, vec, cp_slots)
+                if not run.check(len(ks) == 1, 'REF.fit', con, key,
+                                 'the heat-capacity coefficients of %s %s: %s' % (
+                                     label, 'do not come from a least-squares fit of the data although the data are '
+                                     'not degenerate' if not ks else 'mix the results of fits %s' % ks, show(vec, 200)),
+                                 owner.module, fn):
+                    continue
+                fc = I.fit_calls[ks[0] - 1]
+                x = fc.x.r if isinstance(fc.x, Elem) else None
+                y = fc.y.r if isinstance(fc.y, Elem) else None
+                cps = [a_ for a_ in (y.atoms() if isinstance(y, Rat) else []) if a_.split('|')[0] in ('cp', 'kc')]
+                ts = [a_ for a_ in (x.atoms() if isinstance(x, Rat) else []) if a_.split('|')[0] == 'Tdata']
+                okd = isinstance(x, Rat) and len(ts) == 1 and x.eq(Rat.atom(ts[0])) and len(cps) == 1
+                if not run.check(okd, 'DATAFLOW.fit-data', con, key,
+                                 'the least-squares call is not handed the temperature data as x and a quantity '
+                                 'proportional to the Cp data as y (x=%s, y=%s)' % (show(fc.x, 80), show(fc.y, 80)),
+                                 owner.module, fc.node):
+                    continue
+                xm = ts[0].split('|', 1)[1] if '|' in ts[0] else ''
+                ym = cps[0].split('|', 1)[1] if '|' in cps[0] else ''
+                other_t = [a_ for a_ in y.atoms() if a_.split('|')[0] == 'Tdata' and a_ != ts[0]]
+                run.check(xm == ym and not other_t, 'DATAFLOW.masks', con, key + ' x/y',
+                          'temperatures and heat capacities of one fit are selected by different masks (%s vs %s): the '
+                          'pairs are misaligned' % (xm or 'none', ym or 'none'), owner.module, fc.node)
+                g = D.d(y, cps[0])
+                if not (D.d(g, cps[0]).iszero() and y.eq(g * Rat.atom(cps[0]))):
+                    run.fail('SLOT.power', con, key, 'the fitted quantity %s is not proportional to the Cp data'
+                             % show(y, 120), owner.module, fc.node)
+                    continue
+                if fc.kind == 'polyfit':
+                    model = C(0)
+                    for j, pj in zip(range(fc.deg, -1, -1), fc.params):
+                        model = model + pj * D.pow_sym(x, C(j)) if j else model + pj
+                else:
+                    fr = Frame(I, owner.module, {}, None, None)
+                    model = fr.apply(fc.func, [x] + list(fc.params), {}, fc.node)
+                    if isinstance(model, ListV) and len(model) == 1:
+                        model = model.items[0]
+                    if isinstance(model, Elem):
+                        model = model.r
+                got = evaluator(I, repo, fam, 'CpoR', vec, x, units)
+                ok = isinstance(got, Rat) and isinstance(model, Rat) and same(got * g, model)
+                run.check(ok, 'SLOT.power', con, key,
+                          'the species evaluates Cp/R(T) = %s, but what was fitted to the data is %s%s: a fitted '
+                          'coefficient sits in a slot whose basis is another power of T (or is scaled)'
+                          % (show(got, 160), show(model, 160), '' if g.eq(C(1)) else ' divided by %s' % show(g, 40)),
+                          owner.module, fc.node,
+                          sample={'family': fam, 'vector': label, 'fitted': show(model, 200), 'weight': show(g, 40)})
+            # the masks of consecutive fits partition the data (no point used twice, none dropped between segments)
+            if kind == 'generic' and fam in ('nasa', 'nasa9'):
+                bounds = []
+                for label, vec in vecs:
+                    ks = fit_of(I, vec, sorted(tab['powers'])) if isinstance(vec, ListV) else []
+                    if len(ks) == 1:
+                        bounds.append((label, mask_bounds(getattr(I.fit_calls[ks[0] - 1].x, 'mask', None)),
+                                       I.fit_calls[ks[0] - 1].node))
+                for (l1, (lo1, hi1), n1), (l2, (lo2, hi2), n2) in zip(bounds, bounds[1:]):
+                    n_inst += 1
+                    ok = hi1 is not None and lo2 is not None and same(hi1[1], lo2[1]) and \
+                        {hi1[0], lo2[0]} in ({'<=', '>'}, {'<', '>='})
+                    run.check(ok, 'DATAFLOW.masks', con, '%s | %s' % (l1, l2),
+                              'the data of %s end at %s and those of %s start at %s: a data point on the break is used '
+                              'twice or dropped (or the ranges do not meet)'
+                              % (l1, '%s %s' % (hi1[0], show(hi1[1])) if hi1 else 'no upper bound', l2,
+                                 '%s %s' % (lo2[0], show(lo2[1])) if lo2 else 'no lower bound'), owner.module, n2)
+                if bounds and fam == 'nasa9':
+                    lo0 = bounds[0][1][0]
+                    if lo0 is not None and lo0[0] == '>' and same(lo0[1], D.sym('MIN{(Tdata)}')):
+                        run.note('the lowest-temperature data point (T == min(T)) takes part in no NASA-9 fit: the first '
+                                 'interval selects T > T_low (fit quality is not decided here)', owner.module,
+                                 bounds[0][2])
     return n_inst
 
 
-# ----------------------------------------------------------------------
-# B-D. pipeline interpretation of from_data with the Cp fit as an uninterpreted function
-
-def fit_stub(I, names, n, zeros):
-    v = ListV([I.D.sym('%s%d' % (names, i)) if i not in zeros else C(0) for i in range(n)])
-    v.is_array = True
-    return v
+def only_fit_atoms(vec, slots):
+    """the heat-capacity slots hold nothing but what the least-squares call returned (or zero)"""
+    return all(isinstance(vec.items[i], Rat) and all(a_.startswith('FIT#') for a_ in vec.items[i].atoms())
+               for i in slots)
 
 
 def nasa7_pipeline(run, repo, tables):
     ci = repo.cls(NASA + '.Nasa')
     owner, fn = repo.find_method(ci, 'from_data')
     run.fn(owner.qual + '.from_data')
-    m = repo.module(NASA)
     tab = tables['nasa']
-    zeros = set(tab['hconst'] + tab['sconst'])
+    cp_slots = sorted(tab['powers'])
     n = 0
-    for label, rank in (('T_ref<T_mid', 2), ('T_ref=T_mid', 3), ('T_ref>T_mid', 4)):
-        I = Interp(repo, order=RankOrder({'Tm': 3, 'T_ref': rank}))
+    for (label, rank), kind in itertools.product((('T_ref<T_mid', 2), ('T_ref=T_mid', 3), ('T_ref>T_mid', 4)),
+                                                 ('generic', 'zero')):
+        if kind == 'zero':
+            # the documented fallback takes the break from the data: an entry of the temperature vector, ranked like
+            # the break of the generic instance
+            label += ' [all-zero Cp data]'
+            I, o, _o, _f = fitted(repo, NASA + '.Nasa', kind, None, {'T_ref': rank},
+                                  fallback=lambda a_: 3 if a_.startswith('AT{') else _fallback_rank(a_))
+        else:
+            I, o, _o, _f = fitted(repo, NASA + '.Nasa', kind, lambda I_: {'T_mid': I_.D.sym('Tm')},
+                                  {'Tm': 3, 'T_ref': rank})
         D = I.D
-        lo, hi = fit_stub(I, 'l', 7, zeros), fit_stub(I, 'h', 7, zeros)
-        Tm = D.sym('Tm')
-        I.opaque_funcs[fit_qual(cp_fit_of(repo, NASA + '.Nasa'))] = lambda I_, fr, a, k, nd: ListV([lo, hi, Tm])
         Tref, Href, Sref = D.sym('T_ref'), D.sym('HoRT_ref'), D.sym('SoR_ref')
-        Tdata = Elem(D.sym('Tdata'))
-        o = I.call_function(owner.module, fn, [], {'name': 'sp', 'T': Tdata, 'CpoR': Elem(D.sym('Cpdata')),
-                                                   'T_ref': Tref, 'HoRT_ref': Href, 'SoR_ref': Sref},
-                            self_obj=ci, owner=owner, name=owner.qual + '.from_data')
         if not isinstance(o, Obj):
-            raise Unsupported('Nasa.from_data did not build an object: %s' % show(o))
+            run.fail('ANCHOR.H', 'nasa.Nasa.from_data', label, 'from_data does not build a species: %s' % show(o, 120),
+                     owner.module, fn)
+            n += 1
+            continue
         al, ah = o.attrs.get('a_low'), o.attrs.get('a_high')
-        H = lambda a, T: I.call_function(m, m.functions['get_nasa_HoRT'], [], {'a': a, 'T': T})
-        S = lambda a, T: I.call_function(m, m.functions['get_nasa_SoR'], [], {'a': a, 'T': T})
+        H = lambda a, T: evaluator(I, repo, 'nasa', 'HoRT', a, T)
+        S = lambda a, T: evaluator(I, repo, 'nasa', 'SoR', a, T)
         seg = al if rank <= 3 else ah
         segname = 'low' if rank <= 3 else 'high'
         # at T_ref == T_mid either segment may carry the anchor (they join there)
@@ -435,12 +314,12 @@ def nasa7_pipeline(run, repo, tables):
         run.check(same(S(al, tm), S(ah, tm)), 'CONT.S', 'nasa.Nasa.from_data', label,
                   'S is discontinuous at T_mid', owner.module, fn)
         # the Cp fit is left untouched and only the integration-constant slots are written
-        ok = all(same(al.items[i], lo.items[i]) and same(ah.items[i], hi.items[i])
-                 for i in range(7) if i not in zeros)
-        run.check(ok, 'DATAFLOW.cp-slots', 'nasa.Nasa.from_data', label,
-                  'a heat-capacity coefficient was modified while anchoring H and S', owner.module, fn)
-        run.check(same(tm, Tm), 'DATAFLOW.T_mid', 'nasa.Nasa.from_data', label,
-                  'the species is built with T_mid=%s, not the break temperature chosen by the Cp fit' % show(tm),
+        run.check(only_fit_atoms(al, cp_slots) and only_fit_atoms(ah, cp_slots), 'DATAFLOW.cp-slots',
+                  'nasa.Nasa.from_data', label, 'a heat-capacity coefficient was modified while anchoring H and S',
+                  owner.module, fn)
+        want_tm = D.sym('Tm') if kind == 'generic' else None
+        run.check(want_tm is None or same(tm, want_tm), 'DATAFLOW.T_mid', 'nasa.Nasa.from_data', label,
+                  'the species is built with T_mid=%s, not the break temperature the data were split at' % show(tm),
                   owner.module, fn)
         run.check(same(o.attrs.get('T_low'), D.sym('MIN{(Tdata)}')) and
                   same(o.attrs.get('T_high'), D.sym('MAX{(Tdata)}')), 'DATAFLOW.bounds', 'nasa.Nasa.from_data', label,
@@ -454,23 +333,15 @@ def nasa9_pipeline(run, repo, tables, max_seg):
     ci = repo.cls(NASA + '.Nasa9')
     owner, fn = repo.find_method(ci, 'from_data')
     run.fn(owner.qual + '.from_data')
-    m = repo.module(NASA)
     tab = tables['nasa9']
-    zeros = set(tab['hconst'] + tab['sconst'])
+    cp_slots = sorted(tab['powers'])
     n = 0
     for nseg in range(1, max_seg + 1):
         for j in range(nseg):
-            I = Interp(repo)
+            I, o, _o, _f = fitted(repo, NASA + '.Nasa9', 'generic', nasa9_extra(nseg))
             D = I.D
-            stubs = [fit_stub(I, 's%d_' % k, 9, zeros) for k in range(nseg)]
-            I.opaque_funcs[fit_qual(cp_fit_of(repo, NASA + '.Nasa9'))] = lambda I_, fr, a, k, nd, st=stubs: ListV(list(st))
             tmid = ListV([D.sym('Tm%d' % k) for k in range(nseg - 1)])
-            tmid.is_array = True
             Tref, Href, Sref = D.sym('T_ref'), D.sym('HoRT_ref'), D.sym('SoR_ref')
-            o = I.call_function(owner.module, fn, [], {'name': 'sp', 'T': Elem(D.sym('Tdata')),
-                                                       'CpoR': Elem(D.sym('Cpdata')), 'T_ref': Tref,
-                                                       'HoRT_ref': Href, 'SoR_ref': Sref, 'T_mid': tmid},
-                                self_obj=ci, owner=owner, name=owner.qual + '.from_data')
             if not isinstance(o, Obj):
                 raise Unsupported('Nasa9.from_data did not build an object: %s' % show(o))
             segs = get_public(I, o, 'nasas')
@@ -478,8 +349,8 @@ def nasa9_pipeline(run, repo, tables, max_seg):
                 run.fail('DATAFLOW.segments', 'nasa.Nasa9.from_data', 'segments:%d' % nseg,
                          'expected %d segment objects, got %s' % (nseg, show(segs)), owner.module, fn)
                 continue
-            H = lambda a, T: I.call_function(m, m.functions['get_nasa9_HoRT'], [], {'a': a, 'T': T})
-            S = lambda a, T: I.call_function(m, m.functions['get_nasa9_SoR'], [], {'a': a, 'T': T})
+            H = lambda a, T: evaluator(I, repo, 'nasa9', 'HoRT', a, T)
+            S = lambda a, T: evaluator(I, repo, 'nasa9', 'SoR', a, T)
             A = [s.attrs['a'] for s in segs.items]
             if j == 0:
                 # segment bounds are consecutive pairs of [min(T), *T_mid, max(T)]
@@ -498,9 +369,8 @@ def nasa9_pipeline(run, repo, tables, max_seg):
                               'segments:%d break:%d' % (nseg, k), 'S is discontinuous at break temperature %d' % k,
                               owner.module, fn)
                     n += 2
-                ok = all(same(A[k].items[i], stubs[k].items[i]) for k in range(nseg) for i in range(9)
-                         if i not in zeros)
-                run.check(ok, 'DATAFLOW.cp-slots', 'nasa.Nasa9.from_data', 'segments:%d' % nseg,
+                run.check(all(only_fit_atoms(A[k], cp_slots) for k in range(nseg)), 'DATAFLOW.cp-slots',
+                          'nasa.Nasa9.from_data', 'segments:%d' % nseg,
                           'a heat-capacity coefficient was modified while anchoring H and S', owner.module, fn)
                 n += 2
             # anchor: the segment containing T_ref must reproduce the reference values
@@ -520,39 +390,38 @@ def shomate_pipeline(run, repo, tables):
     ci = repo.cls(SHO + '.Shomate')
     owner, fn = repo.find_method(ci, 'from_data')
     run.fn(owner.qual + '.from_data')
-    m = repo.module(SHO)
     tab = tables['shomate']
-    zeros = set(tab['hconst'] + tab['sconst'] + tab['dead'])
-    I = Interp(repo)
-    D = I.D
-    stub = fit_stub(I, 'c', 8, zeros)
-    I.opaque_funcs[fit_qual(cp_fit_of(repo, SHO + '.Shomate'))] = lambda I_, fr, a, k, nd: stub
-    Tref, Href, Sref, units = D.sym('T_ref'), D.sym('HoRT_ref'), D.sym('SoR_ref'), D.sym('units')
-    o = I.call_function(owner.module, fn, [], {'name': 'sp', 'T': Elem(D.sym('Tdata')),
-                                               'CpoR': Elem(D.sym('Cpdata')), 'T_ref': Tref, 'HoRT_ref': Href,
-                                               'SoR_ref': Sref, 'units': units},
-                        self_obj=ci, owner=owner, name=owner.qual + '.from_data')
-    if not isinstance(o, Obj):
-        raise Unsupported('Shomate.from_data did not build an object: %s' % show(o))
-    a = o.attrs.get('a')
-    arr = ListV([Tref])
-    arr.is_array = True
-    H = I.call_function(m, m.functions['get_shomate_HoRT'], [], {'a': a, 'T': arr, 'units': units})
-    S = I.call_function(m, m.functions['get_shomate_SoR'], [], {'a': a, 'T': arr, 'units': units})
-    run.check(isinstance(H, ListV) and same(H.items[0], Href), 'ANCHOR.H', 'shomate.Shomate.from_data', 'any units',
-              'H/RT(T_ref) = %s, not HoRT_ref' % show(H), owner.module, fn,
-              sample='Shomate.from_data: H(T_ref)=HoRT_ref for symbolic units')
-    run.check(isinstance(S, ListV) and same(S.items[0], Sref), 'ANCHOR.S', 'shomate.Shomate.from_data', 'any units',
-              'S/R(T_ref) = %s, not SoR_ref' % show(S), owner.module, fn)
-    ok = all(same(a.items[i], stub.items[i]) for i in range(8) if i not in zeros)
-    run.check(ok, 'DATAFLOW.cp-slots', 'shomate.Shomate.from_data', 'any units',
-              'a heat-capacity coefficient was modified while anchoring H and S', owner.module, fn)
-    run.check(same(o.attrs.get('T_low'), D.sym('MIN{(Tdata)}')) and same(o.attrs.get('T_high'), D.sym('MAX{(Tdata)}')),
-              'DATAFLOW.bounds', 'shomate.Shomate.from_data', 'any units',
-              'temperature bounds are not the span of the data', owner.module, fn)
-    run.check(same(get_public(I, o, 'units'), units), 'DATAFLOW.units', 'shomate.Shomate.from_data', 'any units',
-              'the species is not built with the fitting units', owner.module, fn)
-    return 5
+    cp_slots = sorted(tab['powers'])
+    n = 0
+    for kind in ('generic', 'zero'):
+        I, o, _o, _f = fitted(repo, SHO + '.Shomate', kind, lambda I_: {'units': I_.D.sym('units')})
+        D = I.D
+        key = 'any units' + (' [all-zero Cp data]' if kind == 'zero' else '')
+        Tref, Href, Sref, units = D.sym('T_ref'), D.sym('HoRT_ref'), D.sym('SoR_ref'), D.sym('units')
+        if not isinstance(o, Obj):
+            run.fail('ANCHOR.H', 'shomate.Shomate.from_data', key, 'from_data does not build a species: %s'
+                     % show(o, 120), owner.module, fn)
+            n += 1
+            continue
+        a = o.attrs.get('a')
+        H = evaluator(I, repo, 'shomate', 'HoRT', a, Tref, units)
+        S = evaluator(I, repo, 'shomate', 'SoR', a, Tref, units)
+        run.check(same(H, Href), 'ANCHOR.H', 'shomate.Shomate.from_data', key,
+                  'H/RT(T_ref) = %s, not HoRT_ref' % show(H), owner.module, fn,
+                  sample='Shomate.from_data: H(T_ref)=HoRT_ref for symbolic units')
+        run.check(same(S, Sref), 'ANCHOR.S', 'shomate.Shomate.from_data', key,
+                  'S/R(T_ref) = %s, not SoR_ref' % show(S), owner.module, fn)
+        run.check(isinstance(a, ListV) and len(a) == 8 and only_fit_atoms(a, cp_slots), 'DATAFLOW.cp-slots',
+                  'shomate.Shomate.from_data', key,
+                  'a heat-capacity coefficient was modified while anchoring H and S', owner.module, fn)
+        run.check(same(o.attrs.get('T_low'), D.sym('MIN{(Tdata)}')) and
+                  same(o.attrs.get('T_high'), D.sym('MAX{(Tdata)}')),
+                  'DATAFLOW.bounds', 'shomate.Shomate.from_data', key,
+                  'temperature bounds are not the span of the data', owner.module, fn)
+        run.check(same(get_public(I, o, 'units'), units), 'DATAFLOW.units', 'shomate.Shomate.from_data', key,
+                  'the species is not built with the fitting units', owner.module, fn)
+        n += 5
+    return n
 
 
 # ----------------------------------------------------------------------
@@ -669,51 +538,28 @@ def from_model(run, repo):
     return n
 
 
-def masks(run, repo):
-    # the function that splits the data: where the two-range NASA-7 fit calls np.polyfit
-    fm, ff = cp_fit_of(repo, NASA + '.Nasa')
-    sites = {(id(f2)): (m2, f2) for m2, f2, _c, t in lsq_calls(repo, fm, ff) if t == 'numpy.polyfit'}
-    if len(sites) != 1:
-        raise AnchorError('NASA-7 fit: np.polyfit is called in %d functions, expected 1' % len(sites))
-    (m, fn), = sites.values()
-    run.fn('%s.%s' % (m.name, fn.name))
-    cmps = {}
-    for st in ast.walk(fn):
-        if isinstance(st, ast.Assign) and isinstance(st.value, ast.Compare) and len(st.value.ops) == 1 \
-                and isinstance(st.targets[0], ast.Name):
-            cmps[st.targets[0].id] = st.value
-    used = []
-    for c_ in ast.walk(fn):
-        if isinstance(c_, ast.Call) and ast.unparse(c_.func) == 'np.extract':
-            for k in c_.keywords:
-                if k.arg == 'condition' and isinstance(k.value, ast.Name):
-                    used.append(k.value.id)
-    conds = [cmps[u] for u in dict.fromkeys(used) if u in cmps]
-    ok = False
-    if len(conds) == 2:
-        a, b = conds
-        same_ops = norm(a.left) == norm(b.left) and norm(a.comparators[0]) == norm(b.comparators[0])
-        pair = {type(a.ops[0]), type(b.ops[0])}
-        ok = same_ops and pair in ({ast.LtE, ast.Gt}, {ast.Lt, ast.GtE})
-    run.check(ok, 'DATAFLOW.masks', 'nasa NASA-7 two-range fit', 'low/high masks',
-              'the low and high fit masks are not complementary comparisons of T with T_mid (a data point would be '
-              'used twice or dropped)', m, fn)
-    return 1
-
-
 def check(run, repo):
     run.explanation = (
-        'Clauses of C03 that are visible in the shape of the code. (A) a structural vector-shape evaluation of every '
-        'return path of the Cp-fit functions: vector length equals the evaluator basis length, the integration-'
-        'constant slots (re-derived from the evaluators) are returned as zeros, fitted coefficients land in the slot '
-        'whose basis has the fitted power. (B) from_data of Nasa, Nasa9 (1-3 segments, T_ref in every segment) and '
-        'Shomate (symbolic units) is interpreted with the Cp fit as an uninterpreted function; on the resulting '
-        'object H(T_ref)=HoRT_ref, S(T_ref)=SoR_ref and continuity of H and S at every break temperature are decided '
-        'as identities for all Cp coefficients, T_ref, T_mid; bounds are min/max of the data. (C) from_model hands '
-        'from_data reference values sampled from the same model at the temperature it passes as T_ref, inside the '
-        'window, and Cp sampled on the grid it passes. (D) the low/high fit masks are complementary.')
-    run.assumptions = ['C02 slot table (re-derived here) - evaluators are affine in the integration-constant slots',
-                       'np.polyfit returns coefficients highest power first; curve_fit returns one value per parameter']
+        'The whole fitting pipeline is interpreted from the public from_data/from_model down to the least-squares '
+        'library call and back: np.polyfit and curve_fit are uninterpreted functions that return fresh symbols and '
+        'record what they were given; the data are vectors of unknown length (generic, constant non-zero, all zero, '
+        'containing NaN); np.extract with a mask yields a sub-vector tagged with the mask. No private helper is named '
+        'or stubbed. (A) for every coefficient vector of the result: its length is the evaluator basis length; for '
+        'non-degenerate data its heat-capacity slots come from exactly one fit, that fit was given the temperature '
+        'data as x and a multiple g(T) of the Cp data as y selected by the same mask, and the family\'s public Cp '
+        'evaluator applied to the vector equals the fitted model divided by g for all parameters and T (a coefficient '
+        'in the wrong slot, a missing reversal, a wrong weight all break this identity); consecutive fits use '
+        'complementary masks; degenerate data give zero Cp coefficients. (B) on the resulting object of Nasa (T_ref '
+        'below, at, above T_mid; also the all-zero fallback), Nasa9 (1-3 (4) segments, T_ref in every segment) and '
+        'Shomate (symbolic units): H(T_ref)=HoRT_ref, S(T_ref)=SoR_ref, H and S continuous at every break, Cp slots '
+        'untouched by the anchoring, bounds = min/max of the data. (C) from_model hands from_data reference values '
+        'sampled from the same model at the temperature it passes as T_ref, inside the window, and Cp sampled on the '
+        'grid it passes (one temperature at a time when the model does not vectorise).')
+    run.assumptions = ['np.polyfit returns coefficients highest power first; curve_fit returns one value per parameter '
+                       'of the model function after the first; a masked sub-vector of generic data is generic and '
+                       'has more entries than any small constant it is compared with',
+                       'T_mid given as a scalar / array of break temperatures (the search over candidate breaks '
+                       'compares mean squared errors of data and is not followed)']
     run.undecided = ['fit quality (tracks the source / reproduces a same-family polynomial): least-squares and '
                      'Nelder-Mead behaviour on data',
                      'break temperatures strictly inside the range for user-supplied T_mid (no validation exists)']
@@ -721,8 +567,8 @@ def check(run, repo):
     run.sample({'slot_tables': {k: {'powers': {i: str(p) for i, p in v['powers'].items()},
                                     'hconst': v['hconst'], 'sconst': v['sconst'], 'dead': v['dead']}
                                 for k, v in tables.items()}})
-    n = fit_shapes(run, repo, tables)
-    run.floor('fit return paths', n, 6)
+    n = fit_rules(run, repo, tables)
+    run.floor('fitted coefficient vectors', n, 20)
     n = nasa7_pipeline(run, repo, tables)
     run.floor('NASA-7 pipeline instances', n, 21)
     n = nasa9_pipeline(run, repo, tables, 4 if run.tier == 'thorough' else 3)
@@ -730,7 +576,6 @@ def check(run, repo):
     shomate_pipeline(run, repo, tables)
     n = from_model(run, repo)
     run.floor('from_model instances', n, 15)
-    masks(run, repo)
 
 
 N = 'pmutt/empirical/nasa.py'
@@ -752,9 +597,9 @@ MUTANTS = [
      'edits': [(S_, '        HoRT_ref = model.get_HoRT(T=T_mean)', '        HoRT_ref = model.get_HoRT(T=T_high)')]},
     {'name': 'Shomate _fit_HoRT forgets /k prefix', 'expect': ('ANCHOR.H', 'Shomate.from_data'),
      'edits': [(S_, "        * c.R(units)*T_ref/c.prefixes['k']\n    a[7]", "        * c.R(units)*T_ref\n    a[7]")]},
-    {'name': 'NASA-7 fit keeps polyfit order (no reversal)', 'expect': ('SLOT.power', '_fit_CpoR'),
+    {'name': 'NASA-7 fit keeps polyfit order (no reversal)', 'expect': ('SLOT.power', 'from_data'),
      'edits': [(N, 'a_low_out = np.concatenate((a_low_rev[::-1], empty_arr))', 'a_low_out = np.concatenate((a_low_rev, empty_arr))')]},
-    {'name': 'masks overlap at T_mid', 'expect': ('DATAFLOW.masks', 'NASA-7 two-range fit'),
+    {'name': 'masks overlap at T_mid', 'expect': ('DATAFLOW.masks', 'from_data'),
      'edits': [(N, '    high_condition = (T > T_mid)', '    high_condition = (T >= T_mid)')]},
     {'name': 'Nasa T_high from T_mid', 'expect': ('DATAFLOW.bounds', 'Nasa.from_data'),
      'edits': [(N, '        T_high = max(T)\n\n        # Find midpoint temperature, and a[0] through a[4] parameters\n        a_low, a_high, T_mid_out', '        T_high = min(T)\n\n        # Find midpoint temperature, and a[0] through a[4] parameters\n        a_low, a_high, T_mid_out')]},
